@@ -195,6 +195,15 @@ def run(ctx):
         ctx.ob('R01.4', 'permit returned exactly when size<=max (surplus withheld)', okrel, ctx.where(b, blk.term.line),
                detail if not okrel else '', construct='add_permits-guard:' + b.name)
 
+    # who may call the helpers that put permits back: only the end of an Object (drop / take).  A call from the getter
+    # region would return a permit while the getter still holds its own.
+    for h, rootb in [(x, r.OBJ_DROP) for x in r.RETURN if x.path != r.OBJ_DROP.path] + [(x, r.OBJ_TAKE) for x in r.TAKE if x.path != r.OBJ_TAKE.path]:
+        callers = sorted({prog.bodies[cp].name for cp, bb, k in prog.callers_of(h.path)})
+        ok = callers == [rootb.name]
+        ctx.ob('R01.4', 'the permit-returning helper is called only when an Object ends', ok, ctx.where(h),
+               '%s is called from %s: a permit is put back while its holder may still own one' % (h.name, callers) if not ok else '',
+               construct='helper-callers:' + h.name, sites=callers)
+
     # ---- R01.5 the single size increment ---------------------------------
     incs = []
     decs = []
